@@ -201,7 +201,7 @@ def run(ctx):
             ante["deployment_default_applies"] += 1
         nontrivial.add(json.dumps([sv, r["env"], r["path"]], sort_keys=True))
     for k, v in ante.items():
-        if v == 0:
+        if v == 0 and not ctx.violations:
             raise V.Machinery("vacuity: no observed outcome exercised '%s'" % k)
     ctx.cov["rule_antecedents_observed"] = ante
     smp = json.loads(lines[0])
